@@ -345,7 +345,9 @@ class Signal(np.lib.mixins.NDArrayOperatorsMixin):
         :py:func:`dask.array.rechunk`.
         """
         if chunks is None:
-            chunks = (-1,) + ("auto",) * (self.ndim - 1)
+            # "auto" chunks of an empty array divide by zero
+            auto = "auto" if self.data.size else -1
+            chunks = (-1,) + (auto,) * (self.ndim - 1)
 
         x = dask.array.asanyarray(self.data)
         return type(self).like(self, x.rechunk(chunks, **kwargs))
